@@ -111,3 +111,15 @@ package model
 //@ func NewMatchRuleFromValue(v) (r, ok)
 //@   ensures {C09,C04} ok == (v == "name" || v == "tag" || v == "none") && r == cond(ok, MatchRule(v), MatchRule(""))
 //@   loop 1 invariant $k <= len(MatchRuleValues) && forall(i, 0, $k, string(MatchRuleValues[i]) != v)
+
+// ---- which destination an assignment accounts for (C05) ------------------------------------------------------------------
+
+//@ spec lhsText(a Assignment) string =
+//@     cond(is(a, SkipField), as(a, SkipField).LHS,
+//@     cond(is(a, NoMatchField), as(a, NoMatchField).LHS,
+//@     cond(is(a, SimpleField), as(a, SimpleField).LHS,
+//@     cond(is(a, SliceAssignment), as(a, SliceAssignment).LHS,
+//@     cond(is(a, SliceLoopAssignment), as(a, SliceLoopAssignment).LHS,
+//@     cond(is(a, SliceTypecastAssignment), as(a, SliceTypecastAssignment).LHS, otherAssignText(a)))))))
+//@ spec covers(a Assignment, l string) bool = a != nil && (is(a, NestStruct) || lhsText(a) == l)
+//@ spec under(a Assignment, p string) bool = a != nil && (is(a, NestStruct) || hasPrefix(lhsText(a), p))
